@@ -2,8 +2,9 @@
 //! feeding a real RibUnitRunner, queried through Rib::match_prefix.
 //! Serves C01 C02 C03 C05 C15. Same case grammar as oracle/eng_pipe.ml:
 //!   C k | I k | T k | S k i | U k i e | D k i | R k i af a ps wf ws | E k i f |
-//!   B k i | X k | O b | A b af a ps wf ws | Z b | Q af p | M k | MR
-//!   (MR = the RIB unit's own counters, see rib_metrics_vec)
+//!   B k i | X k | O b | A b af a ps wf ws | Z b | Q af p | M k | MR | MRS
+//!   (MR = the RIB unit's own counters, see rib_metrics_vec; MRS = the same read, which the oracle also holds against the
+//!   property's reading of the metric descriptions)
 //! and, from the wire (UPDATE octets from C04's proved encoder / malformed variants):
 //!   RB k i <hex>  the octets as the BGP UPDATE of a Route Monitoring message of peer i on router k
 //!   AB b <hex>    the octets as an UPDATE on BGP session b (parsed with SessionConfig::modern())
@@ -524,7 +525,7 @@ pub fn run_case(line: &str) -> String {
                 }
             }
             // the RIB unit's own metrics (src/units/rib_unit/metrics.rs) as /metrics renders them, through the independent reader
-            "MR" => {
+            "MR" | "MRS" => {
                 if std::env::var("VH_DEBUG").is_ok() { eprintln!("{}", w.rib.verif_metrics_prometheus()); }
                 out.push(rib_metrics_vec(&w.rib.verif_metrics_prometheus()));
             }
